@@ -78,6 +78,23 @@ def detect(pid, k, checks):
     return out
 
 
+def headcheck(pid, k):
+    """does the stored change still break the property on /repo's CURRENT HEAD (a later fix: commit may have neutralised it)?"""
+    import tempfile
+    d = os.path.join(SEEDED, dname(pid, k))
+    wt = tempfile.mkdtemp(prefix="head_%s_m%d_" % (pid, k))
+    os.rmdir(wt)
+    sh("git -C /repo worktree add -q --detach %s HEAD" % wt)
+    try:
+        rc, o = sh("git apply %s" % os.path.join(d, "patch.diff"), cwd=wt)
+        if rc != 0:
+            return {"applies_to_head": False}
+        rc2, o2 = sh("/venv/bin/python %s %s" % (os.path.join(d, "demo.py"), wt), cwd=d)
+        return {"applies_to_head": True, "demo_on_head_rc": rc2, "head": sh("git -C /repo rev-parse --short HEAD")[1].strip()}
+    finally:
+        sh("git -C /repo worktree remove --force %s" % wt)
+
+
 def main():
     step, pid, k = sys.argv[1], sys.argv[2], int(sys.argv[3])
     d = os.path.join(SEEDED, dname(pid, k))
@@ -93,13 +110,15 @@ def main():
         meta["needs_to_manifest"] = open(notes).read() if os.path.exists(notes) else ""
         meta["what_i_ran"] = ("tools/eval_mutants.py confirm: demo on the clean worktree (exit 0) and with the diff applied (exit 1); "
                               "pinned test suite with and without the diff, failing ids compared (known-flaky hypothesis tests ignored); import check")
+    elif step == "headcheck":
+        meta.update(headcheck(pid, k))
     else:
         checks = sys.argv[4:] or [pid]
         if step == "redetect" and "detection" in meta and "detection_round1" not in meta:
             meta["detection_round1"] = meta.pop("detection")         # first-run result kept (checks as they were before strengthening)
         meta.setdefault("detection", {}).update(detect(pid, k, checks))
     json.dump(meta, open(mp, "w"), indent=1)
-    print(pid, k, step, json.dumps({k2: v for k2, v in meta.items() if k2 in ("confirmed", "detection", "new_failing_tests", "demo_clean_rc", "demo_mutant_rc")})[:400])
+    print(pid, k, step, json.dumps({k2: v for k2, v in meta.items() if k2 in ("confirmed", "detection", "demo_on_head_rc", "applies_to_head", "new_failing_tests", "demo_clean_rc", "demo_mutant_rc")})[:400])
 
 
 main()
